@@ -8,6 +8,7 @@ package storage
 import (
 	"os"
 	"path"
+	"sync"
 	"time"
 
 	log "github.com/sirupsen/logrus"
@@ -25,6 +26,9 @@ const (
 // Store implements a storage for Bundles together with meta data.
 type Store struct {
 	bh *badgerhold.Store
+
+	// mutex serializes the modifying operations; Push is a read-modify-write on a BundleItem.
+	mutex sync.Mutex
 
 	badgerDir string
 	bundleDir string
@@ -70,6 +74,9 @@ func (s *Store) Close() error {
 
 // Push a new/received Bundle to the Store.
 func (s *Store) Push(b bpv7.Bundle) error {
+	s.mutex.Lock()
+	defer s.mutex.Unlock()
+
 	bi := newBundleItem(b, s.bundleDir)
 
 	if biStore, err := s.QueryId(b.ID()); err != nil {
@@ -132,11 +139,17 @@ func (s *Store) Update(bi BundleItem) error {
 		"bundle": bi.Id,
 	}).Debug("Store updates BundleItem")
 
+	s.mutex.Lock()
+	defer s.mutex.Unlock()
+
 	return s.bh.Update(bi.Id, bi)
 }
 
 // Delete a BundleItem, represented by the "scrubbed" BundleID.
 func (s *Store) Delete(bid bpv7.BundleID) error {
+	s.mutex.Lock()
+	defer s.mutex.Unlock()
+
 	if bi, err := s.QueryId(bid); err == nil {
 		log.WithFields(log.Fields{
 			"bundle": bid,
